@@ -2,7 +2,8 @@
 # selftest/run.sh [ID ...]   -- must-fail corpus: every seeded property-breaking change under /verif/seeded/<ID>/
 # (each compiles and passes the repository's own tests) is applied to a scratch worktree of /repo's HEAD and the
 # property's registered check is run against that worktree; the check must exit 1 with a VIOLATION line.
-# A seed whose meta.json says "at_head": "neutral" (neutralised by a later fix commit) must leave the check quiet.
+# A seed whose meta.json says "at_head": "neutral" (a behaviour-preserving change, seeded/<ID>-bN, or a change neutralised
+# by a later fix commit) must leave the check quiet: anything else is reported as FALSE-ALARM.
 # Nothing is written to /repo, to /verif/evidence or to /verif/replay. Exit 0 iff every change is handled as expected.
 # The machinery (/verif) and the repository commit are snapshotted at start, so work on either while the corpus runs
 # cannot change a run half-way. SELFTEST_PAR=<n> runs n seeds at a time (default 2).
